@@ -199,6 +199,7 @@ public:
 		if(head) {
 			node->next = head;
 			head->previous = node;
+			EVENTPP_VERIF_POINT("cl.prepend.mid.w");
 			head = node;
 		}
 		else {
@@ -403,6 +404,7 @@ private:
 			beforeNode->previous->next = node;
 		}
 		beforeNode->previous = node;
+		EVENTPP_VERIF_POINT("cl.insert.mid.w");
 
 		if(beforeNode == head) {
 			head = node;
